@@ -5,13 +5,23 @@ From CP Require Import Model.Base Model.Ranges Model.Fields Model.Validio.
 Section History.
   Context {CS : Type}.
 
+  (* a run that is left unfinished: cutplace.rows(...) after k outputs, or a Writer after these write_row calls *)
+  Inductive late_first :=
+  | LFRead (m : mode) (limit : option nat) (raws : list (list text)) (k : nat)
+  | LFWrite (rows : list (list text)).
+
   Inductive op :=
   | OpRows (m : mode) (limit : option nat) (raws : list (list text)) (fault : bool)   (* cutplace.rows(...) consumed completely *)
   | OpValidate (limit : option nat) (raws : list (list text)) (fault : bool)          (* cutplace.validate(...) *)
   | OpAbandon (m : mode) (limit : option nat) (raws : list (list text)) (fault : bool) (k : nat)
       (* cutplace.rows(...): k outputs are taken, then the generator is closed *)
   | OpNoClose (m : mode) (limit : option nat) (raws : list (list text)) (fault : bool) (* Reader.rows() consumed, reader never closed *)
-  | OpWrite (rows : list (list text)) (do_close : bool).                              (* Writer: write_row each, optionally close *)
+  | OpWrite (rows : list (list text)) (do_close : bool)                               (* Writer: write_row each, optionally close *)
+  | OpLate (first : late_first) (m : mode) (limit : option nat) (raws : list (list text)) (fault : bool) (j : nat).
+      (* an earlier run is left unfinished (a suspended rows() generator, an open Writer); cutplace.rows(...) is then
+         started on the same CID, j outputs are taken, only now the earlier run is finalized (generator closed or
+         collected, writer closed: BaseValidator.close() on the shared checks), and the rows() run is consumed to its
+         end. The outcome is that of the rows() run. *)
 
   Record outcome := {
     oc_outs : list out;                 (* rows / yielded errors returned *)
@@ -37,6 +47,26 @@ Section History.
             end
         end
     end.
+
+  (* like run_rows_take, but also returns the raw rows not yet consumed when the generator is suspended *)
+  Fixpoint run_rows_split (c : cid CS) (m : mode) (limit : option nat) (k : nat) (s : rstate CS) (raws : list (list text))
+    : rstate CS * list out * option err * option (list (list text)) :=
+    match k with
+    | O => (s, [], None, Some raws)
+    | S k' =>
+        match raws with
+        | [] => (s, [], None, None)
+        | row :: rest =>
+            let '(s', so, _) := step c m limit s row in
+            match so with
+            | SRaise e => (s', [], Some e, None)
+            | SOut (Some o) => let '(sf, outs, r, susp) := run_rows_split c m limit k' s' rest in (sf, o :: outs, r, susp)
+            | SOut None => run_rows_split c m limit k s' rest
+            end
+        end
+    end.
+  Definition with_sts (s : rstate CS) (sts : list CS) : rstate CS :=
+    {| rs_count := rs_count s; rs_loc := rs_loc s; rs_sts := sts; rs_acc := rs_acc s; rs_rej := rs_rej s |}.
 
   Definition start (c : cid CS) : rstate CS :=
     {| rs_count := 1; rs_loc := {| l_line := 0; l_cell := 0 |}; rs_sts := resets (c_checks c); rs_acc := 0; rs_rej := 0 |}.
@@ -76,6 +106,36 @@ Section History.
           let '(sts', ce, _) := writer_close c wf in
           (sts', {| oc_outs := []; oc_raised := ce; oc_writes := es; oc_emitted := w_rows wf |})
         else (w_sts wf, {| oc_outs := []; oc_raised := None; oc_writes := es; oc_emitted := w_rows wf |})
+    | OpLate first m limit raws fault j =>
+        (* the earlier run: Some l = it is still unfinished, l being the location its close() will report *)
+        let pending : option loc :=
+          match first with
+          | LFRead m1 l1 raws1 k =>
+              let '(s1, _, _, ab) := run_rows_take c m1 l1 k (start c) raws1 in
+              match k with
+              | O => None                                  (* the generator was never started: closing it does nothing *)
+              | S _ => if ab then Some (rs_loc s1) else None   (* ended by itself: closed before the second run starts *)
+              end
+          | LFWrite rows => let '(wf, _) := write_all c (writer_init c sts) rows in Some (w_loc wf)
+          end in
+        (* the second run resets the shared checks, whatever the first left there *)
+        let '(s2, outs_a, r_a, susp) := run_rows_split c m limit j (start c) raws in
+        match j, susp, pending with
+        | S _, Some rest, Some l1 =>
+            (* the earlier run is finalized now: its close() runs the end checks and the clean-up on the shared
+               states as they are in the middle of the second run; a failing end check is dropped *)
+            let '(sts_mid, _, _) := close c (rs_sts s2) l1 in
+            let '(sf, outs_b, r_b, _) := run_rows c m limit (with_sts s2 sts_mid) rest in
+            let r' := match r_b with Some e => Some e | None => if fault then Some (format_error (rs_loc sf)) else None end in
+            let '(sts', ce, _) := close c (rs_sts sf) (rs_loc sf) in
+            (sts', {| oc_outs := outs_a ++ outs_b; oc_raised := match r' with Some e => Some e | None => ce end;
+                      oc_writes := []; oc_emitted := [] |})
+        | _, _, _ =>
+            (* nothing to interleave (j = 0: the second run has not even reset the checks when the first is
+               finalized): the second run is an ordinary complete run *)
+            let r := api_rows c m limit sts raws fault in
+            (r_sts r, {| oc_outs := r_outs r; oc_raised := r_raised r; oc_writes := []; oc_emitted := [] |})
+        end
     end.
 
   (* a history: the outcome of every operation, the states being threaded through the shared CID *)
